@@ -360,3 +360,35 @@ Lemma history_last_answer vcmp vmatch c flavors vro db h q :
   run_history vcmp vmatch c flavors vro db h ++
   [answer_on vcmp vmatch c flavors vro (view_after flavors db (changes_of h)) q].
 Proof. now rewrite run_history_app. Qed.
+
+(* ------------------------------------------------------------------ sessions of several instances *)
+
+Lemma session_is_own_history vcmp vmatch c insts db k i : forall h,
+  nth_error insts k = Some i ->
+  answers_to k (run_session vcmp vmatch c insts db h) =
+  run_history vcmp vmatch c (i_flavors i) (i_vro i) db (map Ask (asks_of k h)).
+Proof.
+  intros h Hk. induction h as [|[j|j q] r IH]; cbn [run_session asks_of]; [reflexivity|exact IH|].
+  destruct (Nat.eqb j k) eqn:E.
+  - apply Nat.eqb_eq in E. subst j. rewrite Hk. unfold answers_to in *. cbn [filter fst].
+    rewrite Nat.eqb_refl. cbn [map snd run_history]. now rewrite IH.
+  - destruct (nth_error insts j) as [i'|]; [|exact IH].
+    unfold answers_to in *. cbn [filter fst]. rewrite E. exact IH.
+Qed.
+
+Lemma run_session_app vcmp vmatch c insts db h1 h2 :
+  run_session vcmp vmatch c insts db (h1 ++ h2) =
+  run_session vcmp vmatch c insts db h1 ++ run_session vcmp vmatch c insts db h2.
+Proof.
+  induction h1 as [|[j|j q] r IH]; cbn [app run_session]; [reflexivity|exact IH|].
+  destruct (nth_error insts j); [cbn [app]; now rewrite IH|exact IH].
+Qed.
+
+Lemma first_some_in {A B} (g : A -> option B) l b :
+  first_some g l = Some b -> exists a, In a l /\ g a = Some b.
+Proof.
+  induction l as [|a r IH]; cbn; [discriminate|].
+  destruct (g a) eqn:E.
+  - intro H. injection H as ->. exists a. auto.
+  - intro H. destruct (IH H) as [x [I G]]. exists x. auto.
+Qed.
